@@ -119,7 +119,7 @@ obligation_leak!(ordering_op__lt_sign, {
 obligation!(ordering_op__single_eq_rejected, {
     rejects!(OrderingOp, "= x");
 });
-obligation!(ordering_op__gt_space_eq_is_gt, {
+obligation_leak!(ordering_op__gt_space_eq_is_gt, {
     lexes!(OrderingOp, "> =", 1, OrderingOp::GreaterThan);
 });
 obligation!(ordering_op__lt_space_eq_is_lt, {
@@ -153,11 +153,11 @@ obligation!(bytes_op__matches, {
     lexes!(BytesOp, "matches", 7, BytesOp::Matches);
     lexes!(BytesOp, "matches x", 7, BytesOp::Matches);
 });
-obligation!(bytes_op__wildcard, {
+obligation_leak!(bytes_op__wildcard, {
     lexes!(BytesOp, "wildcard", 8, BytesOp::Wildcard);
     lexes!(BytesOp, "wildcard x", 8, BytesOp::Wildcard);
 });
-obligation!(bytes_op__strict_wildcard, {
+obligation_leak!(bytes_op__strict_wildcard, {
     lexes!(BytesOp, "strict wildcard", 15, BytesOp::StrictWildcard);
     lexes!(BytesOp, "strict wildcard x", 15, BytesOp::StrictWildcard);
 });
@@ -188,22 +188,22 @@ obligation!(comparison_op__bang_eq, {
 obligation!(comparison_op__ge, {
     lexes!(ComparisonOp, "ge x", 2, O(OrderingOp::GreaterThanEqual));
 });
-obligation!(comparison_op__gt_eq, {
+obligation_leak!(comparison_op__gt_eq, {
     lexes!(ComparisonOp, ">= x", 2, O(OrderingOp::GreaterThanEqual));
 });
-obligation!(comparison_op__le, {
+obligation_leak!(comparison_op__le, {
     lexes!(ComparisonOp, "le x", 2, O(OrderingOp::LessThanEqual));
 });
-obligation!(comparison_op__lt_eq, {
+obligation_leak!(comparison_op__lt_eq, {
     lexes!(ComparisonOp, "<= x", 2, O(OrderingOp::LessThanEqual));
 });
-obligation!(comparison_op__gt, {
+obligation_leak!(comparison_op__gt, {
     lexes!(ComparisonOp, "gt x", 2, O(OrderingOp::GreaterThan));
 });
-obligation!(comparison_op__gt_sign, {
+obligation_leak!(comparison_op__gt_sign, {
     lexes!(ComparisonOp, "> x", 1, O(OrderingOp::GreaterThan));
 });
-obligation!(comparison_op__lt, {
+obligation_leak!(comparison_op__lt, {
     lexes!(ComparisonOp, "lt x", 2, O(OrderingOp::LessThan));
 });
 obligation_leak!(comparison_op__lt_sign, {
